@@ -366,6 +366,10 @@ class Case:
         pairs = [(1, [('S', [TH, TBL])], [('P', [TH, TBL])]),
                  (2, [TH, TBL], [TBL, TBL]),
                  (1, [('P', [('unit',), TH])], [('P', [('unit',), TBL])])]
+        # composites with the same SET of components but different multiplicities / different order
+        pairs += [(1, [('S', [TH, TH, TBL])], [('S', [TH, TBL])]), (1, [('S', [TH, TBL, TBL])], [('S', [TH, TH, TBL])]),
+                  (1, [('P', [TBL, TBL])], [('P', [TBL])]), (1, [('P', [TH, TBL, TBL])], [('P', [TBL, TH])]),
+                  (2, [('S', [TH, TH]), TBL], [('S', [TH]), TBL])]
         if n >= 3:
             pairs += [(1, [('lin', 2)], [('lin', 3)]), (2, [('lin', 2), ('lin', 3)], [('lin', 3), ('lin', 3)]),
                       (1, [('S', [('lin', 2), TH])], [('S', [('lin', 3), TH])])]
@@ -487,7 +491,7 @@ def one(ctx, i):
 
 def run(ctx):
     import check
-    n = 128 if ctx.quick else 600
+    n = 128 if ctx.quick else 500
     check.pmap(ctx, 'props.c15', 'one', list(range(n)), case_timeout=240 if ctx.quick else 1200)
 
 
